@@ -97,4 +97,16 @@ TEXTS = {
                     "memoised ranking is coherent with records and limit, and the rating is compared before word/char counts. "
                     "Found defect D2 (fixed).",
             "note": NOTE},
+    "C02": {"technique": "static analysis: path enumeration of the title builder (tiling + sanitiser typestate), id/marker provenance chains, Unicode table cross-check",
+            "text": "Decides structural clauses: every return path yields the one String that passed retain(ch != NUL) after its last "
+                    "write; the slices copied from the original text tile [0, len) on every path; ids flow record_id -> Record.id -> "
+                    "Hit.id -> SearchResult.id; marker pair provenance; normalisation keeps source/chars paired and composition "
+                    "tables equal NFC. Composition of arbitrary Unicode beyond the tables is not decided.",
+            "note": NOTE},
+    "C09": {"technique": "static analysis: marker typestate over enumerated CFG paths, span-bound provenance, guard dominance, linear-arithmetic discharge of the split guard",
+            "text": "Decides structural clauses: marker emission is left/one slice/right on every path and ends closed; spans start at "
+                    "the word start and are looked up by word offset; new_pair is guarded by slice <= len(word); the guard of "
+                    "WordMatch::split implies a non-empty second half; empty query passes, no match => no hit; marker order "
+                    "provenance; record and query tokenisers split alike. Typo-budget split arithmetic is not decided.",
+            "note": NOTE},
 }
